@@ -38,6 +38,17 @@ def dump (old r : Reg String) (first : Bool) : String :=
 
 def bit (s : String) : Bool := s == "1"
 
+/-- hex form of the 4-digit decimal index -/
+def idx4 (i : Nat) : String :=
+  String.join ([i / 1000 % 10, i / 100 % 10, i / 10 % 10, i % 10].map (fun d => "3" ++ toString d))
+
+def bulkDenom (pre : String) (i : Nat) : String := pre ++ idx4 i
+
+/-- the metadata `bulkmeta` writes: symbol "BULK", description "bulk" -/
+def bulkMeta (pre : String) (i : Nat) : Meta :=
+  let d := bulkDenom pre i
+  { base := d, name := d, symbol := "42554c4b", display := d, desc := "62756c6b", units := [(d, 0)] }
+
 def parseUnits (s : String) : Option (List (String × Nat)) :=
   if s = "-" then some [] else
   (s.splitOn ",").mapM (fun u =>
@@ -69,12 +80,28 @@ def parseAction : List String → Option Action
     (parseQ qok n s dec).map (fun q => .registerERC20 (bit vb) a as q san den desc (bit mv))
   | ["toggle", vb, t] => some (.toggle (bit vb) t)
   | ["update", vb, o, n, ns, qok, nm, s, dec, d1, d2] => (parseQ qok nm s dec).map (fun q => .update (bit vb) o n ns q d1 d2)
-  | ["convert", t, d, live] => some (.convert t d (parseList live))
+  | ["convert", vb, t, d, live] => some (.convert (bit vb) t d (parseList live))
+  | ["restart"] => some .restart
   | _ => none
 
 def step (st : St) (line : String) : St × String :=
   match fields line with
   | ["reset"] => ({ fresh with fixed := st.fixed, genStrict := st.genStrict }, "ok " ++ dump {} {} true)
+  | "dry" :: rest =>                                              -- the action on a context that is dropped: identity
+    match parseAction rest with
+    | none => (st, "bad-op")
+    | some a => (st, (stepWith H st.fixed st.cur a).2.str ++ " dry")
+  | ["restart"] =>                                                -- module restart from its own export
+    let ps := exportGenesis st.cur
+    let valid := if st.genStrict then validateGenesisStrict ps else validateGenesis ps == some true
+    let (r, s) := stepWith H st.fixed st.cur .restart
+    ({ st with cur := r }, s.str ++ " valid=" ++ (if valid then "1" else "0") ++ " " ++ dump st.cur r false)
+  | ["bulkmeta", n, pre] =>                                       -- n coins <pre>0000 … with bank metadata
+    match n.toNat? with
+    | none => (st, "bad-op")
+    | some n =>
+      let r := (List.range n).foldl (fun (r : Reg String) i => (stepWith H st.fixed r (.bankMeta (bulkMeta pre i))).1) st.cur
+      ({ st with cur := r }, "ok " ++ dump st.cur r false)
   | ["genmode", m] => ({ st with genStrict := m == "strict" }, "ok")
   | ["mode", m] => ({ st with fixed := m != "orig" }, "ok")
   | ["push"] => ({ st with stack := st.cur :: st.stack }, "ok")
